@@ -144,7 +144,7 @@ def tlc(module, cfg=None, env=None, workers=1, timeout=1200, xmx="3g", extra=(),
     elif not os.path.isabs(cfg):
         cfg = os.path.join(os.path.dirname(mod), cfg)
     md = tempfile.mkdtemp(prefix="tlcmd-", dir=scratch.dir if scratch else None)
-    cmd = ["timeout", str(timeout)] + tlc_cmd(xmx) + ["-workers", str(workers), "-noGenerateSpecTE", "-metadir", md, "-config", cfg] + list(extra) + [mod]
+    cmd = ["timeout", str(timeout)] + tlc_cmd(xmx, props=["java.io.tmpdir=" + md]) + ["-workers", str(workers), "-noGenerateSpecTE", "-metadir", md, "-config", cfg] + list(extra) + [mod]
     rc, out = sh(cmd, timeout=timeout + 30, env=env, cwd=cwd or md)
     shutil.rmtree(md, ignore_errors=True)
     return TlcResult(rc, out)
